@@ -467,6 +467,25 @@ def run_shard(ctx):
             report(ctx.res, "override", kinds,
                    {"model": p.model, "text": p.text, "overrides": specs,
                     "family": "override"}, cls, e)
+            if rng.random() < 0.3:
+                # the same specifiers handed to a loader object one by one,
+                # each with a source position of the caller's own (a list
+                # or a tuple: "a sequence of three values")
+                from ZConfig import cmdline
+
+                def via_loader():
+                    ld = cmdline.ExtendedConfigLoader(p.schema)
+                    for n_, s_ in enumerate(specs):
+                        pos_ = ["zcv options.txt", n_ + 1, 2]
+                        ld.addOption(s_, pos_ if n_ % 2 == 0
+                                     else tuple(pos_))
+                    return ld.loadFile(io.StringIO(p.text))
+                ctx.res.evaluations += 1
+                ctx.res.count("override_loader_objects")
+                cls, e = run_entry(via_loader)
+                report(ctx.res, "override", kinds + ["own-position"],
+                       {"model": p.model, "text": p.text, "overrides": specs,
+                        "family": "override", "own_position": True}, cls, e)
             if rng.random() < 0.15:
                 # a long list (9-40 specifiers), one of them mangled
                 many = list(specs)
